@@ -37,7 +37,7 @@ typedef struct { uint32_t ain, aout, cons, prod; uint16_t flush, eos; uint8_t sb
 #define MAXEV 6000
 static cevent ev[MAXEV]; static int nev;
 typedef struct { size_t outpos, inpos; int full; } fpoint;
-static long st_forced_empty, st_late_hb, st_bigchunk; static fpoint fps[64]; static int nfps; static long n_flushpts, n_fullpts, n_fullpts_with_match_data;
+static long st_forced_empty, st_late_hb, st_bigchunk, st_far_flush; static fpoint fps[64]; static int nfps; static long n_flushpts, n_fullpts, n_fullpts_with_match_data;
 static long st_calls, st_streams, st_stored_fallback, st_multiblock, st_big, st_tmp_resume[32], st_pairs[24][24];
 
 /* ------------------------------------------------------------------ inputs */
@@ -454,7 +454,7 @@ static void run_dict_extras(long idx, vrng *r)
 	size_t n = 2000 + vrn(r, 20000), dl = 1 + vrn(r, 5000); markov(r, inbuf, n); markov(r, dictbuf, dl);
 	uint8_t *in = gs_place(s_in, n, G_END, 0); memcpy(in, inbuf, n); uint8_t *out = gs_place(s_out, 64, G_END, 0); uint8_t *dd = gs_place(s_dict, dl, G_END, 0); memcpy(dd, dictbuf, dl);
 	struct isal_dict *ds = (struct isal_dict *) gs_place(s_dictst, (sizeof *ds + 15) & ~15ul, G_END, 0);
-	int which = vrn(r, 3), rc = 0; nev = 0;
+	int which = vrn(r, 5), rc = 0; nev = 0;
 	v_setcase(idx, "dictionary call in a wrong state: level=%d which=%d n=%zu dict=%zu", level, which, n, dl);
 	if (V_TRY(30)) {
 		isal_deflate_init(s); s->level = level; s->level_buf = level ? lvlbuf : NULL; s->level_buf_size = (uint32_t) (level ? lvlsz : 0);
@@ -463,6 +463,13 @@ static void run_dict_extras(long idx, vrng *r)
 			rc = isal_deflate_process_dict(s, ds, dd, (uint32_t) dl); if (rc) { viol_ev("dict-refused", "process_dict returned %d on a fresh stream", rc); V_END; goto out; }
 			int nl = (level + 1 + vrn(r, 3)) % 4; s->level = nl; size_t l2 = lvl_size(nl, 2, r); s->level_buf = nl ? lvlbuf : NULL; s->level_buf_size = (uint32_t) (nl ? l2 : 0);
 			memcpy(&snap, s, sizeof snap); rc = isal_deflate_reset_dict(s, ds);
+		} else if (which >= 3) { /* the stream has taken input that is so far only buffered: no block is open yet (ZSTATE_NEW_HDR), but the stream has begun */
+			int pre = vrn(r, 3); if (pre == 1) { isal_deflate_set_dict(s, dd, (uint32_t) dl); } else if (pre == 2) { s->next_in = in; s->avail_in = (uint32_t) (1 + vrn(r, 1900)); s->next_out = out; s->avail_out = 64; s->end_of_stream = 0; s->flush = SYNC_FLUSH; uint8_t *o2 = gs_place(s_out, 60000, G_END, 0); s->next_out = o2; s->avail_out = 60000; isal_deflate(s); }
+			s->next_in = n > 4000 ? in + 3000 : in; s->avail_in = (uint32_t) (1 + vrn(r, 300)); if (pre != 2) { s->next_out = out; s->avail_out = 64; } s->end_of_stream = 0; s->flush = NO_FLUSH;
+			isal_deflate(s);
+			if (which == 4) isal_deflate_process_dict(s, ds, dd, (uint32_t) dl), ds->level = level;
+			memcpy(&snap, s, sizeof snap);
+			rc = which == 3 ? isal_deflate_set_dict(s, dd, (uint32_t) dl) : isal_deflate_reset_dict(s, ds);
 		} else {
 			s->next_in = in; s->avail_in = (uint32_t) n; s->next_out = out; s->avail_out = 64; s->end_of_stream = 0; s->flush = NO_FLUSH;
 			isal_deflate(s);                       /* stream is now mid-block with output pending */
@@ -472,7 +479,7 @@ static void run_dict_extras(long idx, vrng *r)
 		}
 		V_END;
 	} else { fault_key("dictionary call"); goto out; }
-	st_calls++; v_count("dict_wrong_state", which == 0 ? "set_dict mid-stream" : which == 1 ? "reset_dict mid-stream" : "reset_dict after level change", 1);
+	st_calls++; v_count("dict_wrong_state", which == 0 ? "set_dict mid-stream" : which == 1 ? "reset_dict mid-stream" : which == 2 ? "reset_dict after level change" : which == 3 ? "set_dict with input buffered" : "reset_dict with input buffered", 1);
 	if (rc == COMP_OK) viol_ev("dict-accepted-in-wrong-state", "call returned COMP_OK (which=%d state=%d)", which, snap.internal_state.state);
 	else if (memcmp(&snap, s, sizeof snap)) viol_ev("dict-refusal-has-side-effects", "call returned %d but the stream struct changed", rc);
 out:
@@ -495,7 +502,9 @@ static void gen_case(long idx, vrng *r, ccase *c, const char *prop)
 	size_t cap = vopt.thorough && vrn(r, 40) == 0 ? MAXIN : 262144;
 	c->infam = vrn(r, 10); if (c->infam == 9 && vrn(r, 2) && strcmp(prop, "C10")) c->infam = 8;
 	if (!strcmp(prop, "C07")) { c->oneshot = 0; c->fkind = vrn(r, 6); c->ikind = vrn(r, NICH + 2); c->okind = vrn(r, NOCH + 5); c->infam = vrn(r, 3) ? 1 + vrn(r, 8) : 8; if (vrn(r, 2)) cap = 20000; }
-	if (!strcmp(prop, "C14")) { c->oneshot = 0; c->fkind = 1 + vrn(r, 5); c->infam = vrn(r, 4) ? 8 : 4; c->okind = vrn(r, 3) ? NOCH + 1 : (int) vrn(r, NOCH + 3); c->ikind = vrn(r, 2) ? 13 + vrn(r, 6) : NICH + 1; cap = 60000; }
+	if (!strcmp(prop, "C14")) { c->oneshot = 0; c->fkind = 1 + vrn(r, 5); c->infam = vrn(r, 4) ? 8 : 4; c->okind = vrn(r, 3) ? NOCH + 1 : (int) vrn(r, NOCH + 3); c->ikind = vrn(r, 2) ? 13 + vrn(r, 6) : NICH + 1; cap = 60000;
+		if (vrn(r, 6) == 0) { /* flush points beyond 64 KiB (positions wrap in the 16-bit hash tables) with phrases recurring about one window earlier */
+			c->infam = 5; c->hist_bits = 0; cap = 400000; c->ikind = 18 + (int) vrn(r, 5); c->fkind = vrn(r, 3) ? 2 : 5; c->okind = NOCH - 1; st_far_flush++; } }
 	if (!strcmp(prop, "C17")) { c->hist_bits = vrn(r, 8) ? 9 + vrn(r, 7) : 0; c->infam = vrn(r, 3) ? 5 : 7; cap = 262144; if (vrn(r, 3) == 0) { c->oneshot = 0; } }
 	if (!strcmp(prop, "C11")) { c->wrapper = 1 + vrn(r, 4); }
 	int adler_sat = !strcmp(prop, "C11") && vrn(r, 8) == 0;
@@ -582,7 +591,7 @@ int main(int argc, char **argv)
 		}
 	}
 	v_stat("evaluations", st_streams); v_stat("library_calls", st_calls); v_stat("stored_fallback_streams", st_stored_fallback); v_stat("multiblock_streams", st_multiblock); v_stat("inputs_over_64k", st_big);
-	v_stat("flush_points_checked", n_flushpts); v_stat("flush_calls_without_input_after_a_completed_flush", st_forced_empty); v_stat("streams_with_hist_bits_set_after_the_dictionary_calls", st_late_hb); v_stat("histories_with_a_small_chunk_then_chunks_of_hundreds_of_KB", st_bigchunk); v_stat("full_flush_points", n_fullpts); v_stat("full_flush_suffixes_1k", n_fullpts_with_match_data);
+	v_stat("flush_points_checked", n_flushpts); v_stat("flush_calls_without_input_after_a_completed_flush", st_forced_empty); v_stat("streams_with_hist_bits_set_after_the_dictionary_calls", st_late_hb); v_stat("histories_with_a_small_chunk_then_chunks_of_hundreds_of_KB", st_bigchunk); v_stat("histories_with_flush_points_beyond_64KiB_and_window_distance_repeats", st_far_flush); v_stat("full_flush_points", n_fullpts); v_stat("full_flush_suffixes_1k", n_fullpts_with_match_data);
 	for (int a = 0; a < 24; a++) for (int b = 0; b < 24; b++) if (st_pairs[a][b]) { char e[32]; snprintf(e, sizeof e, "%d>%d", a, b); v_count("state_transitions", e, st_pairs[a][b]); }
 	for (int a = 0; a < 32; a++) if (st_tmp_resume[a]) { char e[32]; snprintf(e, sizeof e, "resume_in_state_%d", a); v_count("tmp_state_resume_points", e, st_tmp_resume[a]); }
 	return v_finish();
